@@ -63,7 +63,8 @@ Code anchors: {json.dumps(prop['anchors'])}
   circumstances are needed>", "files_changed": [...], "tests_run": ["<command>: <result>", ...]}}
 Before finishing, for each change: (1) on a clean worktree the demo passes; (2) with the patch applied the demo fails; (3) with the patch
 applied and the demo file removed, `go build ./...` and the touched packages' existing tests pass (ignoring the four known failures).
-Reset the worktree between the two changes (`git checkout -- . && git clean -fd` inside {wt}).
+Reset the worktree between the two changes (`git checkout -- . && git clean -fd` inside {wt}). NEVER use `git stash` (the stash is shared by all
+worktrees of /repo and other agents work in parallel): toggle a change with `git diff > patch.diff` and `git apply -R patch.diff`.
 When done, remove the worktree: `git -C /repo worktree remove --force {wt}`.
 Final message: for each change one paragraph (what, why it breaks the property, what it needs), and the paths of the deliverables.
 If you can only produce one solid change, deliver one; do not pad with a shallow one.""")
